@@ -448,7 +448,7 @@ theorem dispatch_reach {e : Editor D L} {ev : KeyEvent} {sh : Shared D L} {st : 
     the (conditional) auto-commit with a dirty dictionary flushed -/
 theorem tail_spec {sh : Shared D L} {st : St} {e' : Editor D L} {b : KB} (h : tail env sh st = .ok (e', b)) :
     e'.state = st ∧ b = e'.shared.last ∧
-    ∃ sh2, (if st == .entering && sh.last == .absorb then Shared.tryAutoCommit env sh else .ok sh) = .ok sh2 ∧
+    ∃ sh2, (if (st == .entering || st == .enteringSyllable) && sh.last == .absorb then Shared.tryAutoCommit env sh else .ok sh) = .ok sh2 ∧
       e'.shared = (if sh2.dirty > 0 then { sh2 with dict := env.reopenFlush sh2.dict, dirty := 0 } else sh2) := by
   unfold tail at h
   split at h
@@ -460,7 +460,7 @@ theorem tail_spec {sh : Shared D L} {st : St} {e' : Editor D L} {b : KB} (h : ta
     exact ⟨rfl, h2.symm, sh2, hq, rfl⟩
 
 theorem tail_com {sh : Shared D L} {st : St} {e' : Editor D L} {b : KB} (h : tail env sh st = .ok (e', b)) :
-    ∃ sh2, (if st == .entering && sh.last == .absorb then Shared.tryAutoCommit env sh else .ok sh) = .ok sh2 ∧
+    ∃ sh2, (if (st == .entering || st == .enteringSyllable) && sh.last == .absorb then Shared.tryAutoCommit env sh else .ok sh) = .ok sh2 ∧
       e'.shared.com = sh2.com ∧ e'.shared.options = sh2.options ∧ e'.shared.commitBuf = sh2.commitBuf ∧
       e'.shared.last = sh2.last ∧ e'.shared.syl = sh2.syl := by
   obtain ⟨_, _, sh2, h1, h2⟩ := tail_spec env h
